@@ -84,6 +84,13 @@ impl ZoSortedStrVec {
             return Ok(Self::empty());
         }
 
+        // Strings are stored NUL-terminated: an embedded NUL byte would cut the string short
+        if strings.iter().any(|s| s.as_bytes().contains(&0)) {
+            return Err(ZiporaError::invalid_data(
+                "Strings must not contain NUL bytes (used as terminator)",
+            ));
+        }
+
         // Verify strings are sorted
         for i in 1..strings.len() {
             if strings[i - 1] > strings[i] {
